@@ -29,6 +29,8 @@ class AliasLimitAtHandshake(HS.HsPart):
 
 def parts(tier, rng):
     res = B.make_parts(tier, rng, WANT)
+    # frames behind a DISCONNECT in one read, handle_qos_after_disconnect: dropped publishes still (re)bind (burst engines)
+    res += [p for p in B.burst_parts(tier, rng, WANT) if p.ver == 5]
     for p in HS.parts(tier, rng):
         if not isinstance(p, HS.HsPart):
             continue
